@@ -177,7 +177,7 @@ TDrvExit ==
 TSrvSend == /\ Is("SrvSend") /\ Adv /\ Keep
             /\ \E r \in c2s : r.id = E.id /\ ~r.fin /\ SrvSend(r, E.typ) /\ tok' = E.tok
 TSrvOrphan == Is("SrvOrphan") /\ Adv /\ Keep /\ SrvOrphan(E.id, E.typ) /\ tok' = E.tok
-TSrvGarbage == Is("SrvGarbage") /\ Adv /\ Keep /\ SrvGarbage
+TSrvGarbage == Is("SrvGarbage") /\ Adv /\ Keep /\ IF "open" \in DOMAIN E /\ E.open THEN SrvGarbageOpen ELSE SrvGarbage
 TSrvBadDone == Is("SrvBadDone") /\ Adv /\ Keep /\ \E r \in c2s : r.id = E.id /\ ~r.fin /\ SrvBadDone(r)
 TSrvClose == Is("SrvClose") /\ Adv /\ Keep /\ SrvClose(E.how)
 (* the peer stops reading / reads again; WBlocked is logged by the transport the first time a write finds the peer not
@@ -206,7 +206,7 @@ TClientClosed == /\ Is("ClientClosed") /\ Adv /\ Keep /\ UNCHANGED vars
                  (* C04: "Unbind and dropping the last handle close the transport" - an Unbind that went out was followed by
                     the client shutting its side down, whether or not its caller was still waiting *)
                  /\ Chk((\E r \in c2s : r.kind = "unbind") => E.shutdown, "close")
-TIgnored == (Is("IdRelease")) /\ Adv /\ Keep /\ UNCHANGED vars
+TIgnored == (Is("IdRelease") \/ Is("SrvPartial")) /\ Adv /\ Keep /\ UNCHANGED vars
 
 Explained ==
   \/ TSetLast \/ TCall \/ TStart \/ TRet \/ TCallNext \/ TRetNext \/ TInner \/ TFinish \/ TDropHandles \/ TCancel \/ TStreamDrop
